@@ -17,7 +17,7 @@ from props.resp_common import *
 from props.c14 import dur_ns, lines_match, canon_tag
 from props.c20 import TAGS
 from models_iter import iter_next, STOP
-from models_core import as_items
+from models_core import concrete_bytes, as_items
 
 PROP = 'C16'
 
@@ -336,8 +336,8 @@ def gen_seq(I, entry, n):
         exp = []
         m = n if entry != 'StickerGet' else min(n, 1)
         for i in range(m):
-            name = pick(I, 'sn%d' % i, [b'na', b'nb'])
-            val = pick(I, 'sv%d' % i, [b'x', b'', b'a=b', b'=', b'=='])
+            name = pick(I, 'sn%d' % i, [b'na', b'nb', 'gr\u00f6\u00dfe'.encode(), '\u8a55\u4fa1'.encode()])
+            val = pick(I, 'sv%d' % i, [b'x', b'', b'a=b', b'=', b'==', '\u00e4=\u00f6'.encode()])
             if entry == 'StickerFind':
                 f = pick(I, 'sf%d' % i, [b'fa', b'fb'])
                 fields.append((list(b'file'), list(f)))
@@ -376,13 +376,13 @@ def check_seq(I, P, ctx, entry, r, exp):
     if entry == 'StickerGet':
         if not exp:
             return 'empty reply accepted'
-        got = bytes(as_items(v.field('value')))
+        got = concrete_bytes(as_items(v.field('value')))
         return None if got == exp[0][1] else 'sticker value %r instead of %r' % (got, exp[0][1])
     if entry in ('StickerList', 'StickerFind'):
         want = {}
         for k, val in exp:
             want[k] = val            # later entries overwrite earlier ones with the same key (map semantics)
-        got = {bytes(as_items(k)): bytes(as_items(x)) for k, x in v.field('value').entries}
+        got = {concrete_bytes(as_items(k)): concrete_bytes(as_items(x)) for k, x in v.field('value').entries}
         return None if got == want else 'stickers %r instead of %r' % (got, want)
     if entry == 'List0':
         it = I.call_repo('mpd_client::responses::list::List::<0>::values', [ref_to(v)])
